@@ -236,3 +236,21 @@ Example C12_sweep_example :
   map (fun k => lookup k swept) ["mode.readout.times"; "mode.readout.start_time"; "mode.readout.non_destructive"]
   = [Some (LList [LNum 4]); Some (LNum (1#2)); Some (LBool false)].
 Proof. vm_compute. reflexivity. Qed.
+
+(* ---------------------------------------------------------------------------------- what is compared *)
+
+(* The loaded-settings comparison is testing; this theorem pins its EXTENT to the source: every constructor parameter
+   of every class pyxel.load builds an object of (regenerated: src_ctor_params) is in the literal table of compared
+   settings or in the short literal table of exclusions (custom observation mode, working directory of a calibration,
+   pygmo local optimizer), and both tables name only parameters that exist.  A new constructor parameter breaks it. *)
+Theorem C12_every_parameter_compared :
+  (forall c ps p, In (c, ps) src_ctor_params -> In p ps ->
+     (exists qs, In (c, qs) compared_params /\ In p qs) \/ (exists qs, In (c, qs) uncompared_params /\ In p qs)) /\
+  (forall c qs p, In (c, qs) (compared_params ++ uncompared_params) -> In p qs ->
+     exists ps, In (c, ps) src_ctor_params /\ In p ps).
+Proof. apply params_covered_sound. vm_compute. reflexivity. Qed.
+Print Assumptions C12_every_parameter_compared.
+
+Example C12_every_parameter_compared_nonvacuous :
+  List.length (flat_map snd src_ctor_params) = 125%nat /\ List.length (flat_map snd uncompared_params) = 4%nat.
+Proof. vm_compute. split; reflexivity. Qed.
